@@ -151,8 +151,9 @@ def selftest():
             nfaces += len(fl)
             nb = neighbours(w, h, d, per, a)
             assert nb == [b for b in range(n) if related(w, h, d, per, a, b)], (w, h, d, per, a)
-            for b in range(n):
-                assert multiplicity(w, h, d, per, a, b) == multiplicity(w, h, d, per, b, a)
+            for b in fl:
+                assert face_list(w, h, d, per, b).count(a) == fl.count(b)      # multiplicities are symmetric
+            for b in range(a + 1, n):
                 assert related(w, h, d, per, a, b) == related(w, h, d, per, b, a)
         # each physical face is seen from both sides
         ed = edges(w, h, d, per)
@@ -164,9 +165,13 @@ def selftest():
             expect += (dims[k] - 1 + (1 if per[k] else 0)) * others
         assert len(ed) == expect, (w, h, d, per, len(ed), expect)
         # multiplicity from the edge list equals the face multiplicity
+        cnt = {}
+        for e in ed:
+            cnt[e] = cnt.get(e, 0) + 1
         for a in range(n):
+            fl = face_list(w, h, d, per, a)
             for b in range(a + 1, n):
-                assert ed.count((a, b)) == multiplicity(w, h, d, per, a, b)
+                assert cnt.get((a, b), 0) == fl.count(b)
         assert n_self_loops(w, h, d, per) == sum((n // dims[k]) for k in range(3) if per[k] and dims[k] == 1)
     # spot values written by hand
     assert faces(3, 2, 1, (False, False, False), 0) == [1, None, 3, None, None, None]
